@@ -40,6 +40,8 @@ checks = {
          "Real cluster.NewService (service loop, inventory, hostname service, managers, monitors, withdrawal) over a real bus; manifest updates, lease-closed, completion ok/error of every parked cluster call, clock jumps. Oracle over the [start,end) log per lease: no two cluster operations overlap, no deploy starts after the lease-closed signal was delivered to a managed lease, teardown after the last deploy and then reservation and hostnames released, otherwise the last deploy uses the latest manifest - within a bounded fair drain. Layer 1; the hostname-reservation race (DESIGN.md S7) needs goroutine-level scheduling."),
  "C20": ("provsim", "seeded actor-level scheduling of the real manifest service against a parked deployment fetch with lease/version/close events and concurrent submissions; reply/announcement oracle + bounded drain",
          "Real manifest service/manager/watchdog over a real bus; LeaseWon, submissions (valid/invalid/stale, some with deadlines) from independent tasks, fetch completion ok/error/late, version updates, lease removal, deployment close, clock. Oracle: every submission is answered within the drain budget; an announcement only for a lease the provider can still believe it holds, after a successful fetch, carrying a validated manifest that is the latest one; acceptance implies announcement."),
+ "C09": ("gwsim", "seeded connection/registration/revocation/clock histories against the real gateway TLS config and REST router over in-memory pipes inside a synctest bubble, certificates served by the real x/cert querier of a simulated chain; harness-side credential registry as oracle",
+         "Real gwutils.NewServerTLSConfig + real rest router behind net/http, real crypto/tls client handshakes, cert lookups answered by the real x/cert keeper/querier of a chainsim world in which certificates are created/revoked by real transactions; genuine, forged (copied CN+serial), foreign-issuer, revoked, unknown, expired/not-yet-valid (clock jumps), wrong-usage, chained and absent credentials, resumed sessions, chain query errors/stalls, hostile paths and parameters. Oracle: accepted => presented DER is the registered, unrevoked, currently valid clientAuth certificate of that account and the query was not faulted; every back-end call is scoped to the authenticated owner and this provider."),
  "C10": ("provsim", "same simulated manifest-service histories as C20; window oracle on the on-chain version plus harness-side multiset comparison; hash checks on generated manifests",
          "Accepted => the manifest's hash (harness canonical-JSON sha256) was the on-chain version at some instant between submission and reply and per-group unit multisets, counts and endpoint counts equal the on-chain groups; a manifest with equal per-group totals is never rejected by the resource comparison; re-serialisation with another key order keeps the hash, any single field change alters it. Input-dominated: the mutator samples manifests, the simulator adds the timing of version updates and fetches."),
  "C11": ("kubesim", "seeded multi-lease Deploy/redeploy/Teardown histories of the real kube client against fake clientsets with API faults at an arbitrary call; full-cluster scan and namespace-isolation diff after every operation",
@@ -51,7 +53,6 @@ not_applicable = [
 ]
 # properties whose engines are not built yet are listed here with the reason until their check exists
 pending = {
- "C09": "applicable (gwsim engine, DESIGN.md section 4) - check not built yet in this revision",
 }
 
 def main():
@@ -95,8 +96,8 @@ def main():
         json.dump(man, f, indent=1)
         f.write("\n")
 
-EXTRA_NOTES = {"kubesim": "Trusted base: client-go/akash fake clientsets (object tracker) with harness-served DeleteCollection, sorted lists and namespace garbage collection; no real API server, admission or CNI; sampling only.", "provsim": "Trusted base: Go runtime and testing/synctest (fake clock, quiescence detection); chain, cluster and pricing are scripted stubs; Layer 1 explores the order in which stimuli reach the actors, not interleavings inside one stimulus' propagation; sampling only."}
-ENGINE_TEXT = {"kubesim": "real provider/cluster/kube client against fake Kubernetes clientsets with seeded API faults", "provsim": "provider daemon actors (bid engine, cluster service, manifest service, event bus) in a synctest bubble under a seeded scheduler"}
+EXTRA_NOTES = {"gwsim": "Trusted base: Go crypto/tls, crypto/x509, net/http and testing/synctest; connections are buffered in-memory pipes (no sockets); back-ends are recording stubs; certificate/path shapes are sampled; sampling only.", "kubesim": "Trusted base: client-go/akash fake clientsets (object tracker) with harness-served DeleteCollection, sorted lists and namespace garbage collection; no real API server, admission or CNI; sampling only.", "provsim": "Trusted base: Go runtime and testing/synctest (fake clock, quiescence detection); chain, cluster and pricing are scripted stubs; Layer 1 explores the order in which stimuli reach the actors, not interleavings inside one stimulus' propagation; sampling only."}
+ENGINE_TEXT = {"gwsim": "provider gateway (TLS client-certificate authentication + REST router) over in-memory pipes with a simulated chain behind the certificate query", "kubesim": "real provider/cluster/kube client against fake Kubernetes clientsets with seeded API faults", "provsim": "provider daemon actors (bid engine, cluster service, manifest service, event bus) in a synctest bubble under a seeded scheduler"}
 
 if __name__ == "__main__":
     main()
